@@ -12,10 +12,12 @@ package main
 
 import (
 	"fmt"
+	"os"
 	"runtime"
 	"runtime/debug"
 	"sort"
 	"strings"
+	"sync/atomic"
 	"time"
 	"unicode/utf8"
 
@@ -318,8 +320,38 @@ func legC12Hist(c *Ctx) {
 	maxLen := c.N(40, 400)
 	runeSizes, byteSizes := regexp2.VerifRuneClassSizes(), regexp2.VerifByteClassSizes()
 	gates := map[string]int{}
-	old := debug.SetGCPercent(-1)
+	old := debug.SetGCPercent(-1) // pools must not be emptied behind the model's back; a memory limit still bounds the heap
+	oldLimit := debug.SetMemoryLimit(3 << 30)
 	defer debug.SetGCPercent(old)
+	defer debug.SetMemoryLimit(oldLimit)
+	// a call that never returns (e.g. a stale capture count making FindAll loop) must not hang the check
+	var current atomic.Value
+	current.Store("")
+	var beat atomic.Int64
+	stopDog := make(chan struct{})
+	defer close(stopDog)
+	go func() {
+		last, since := int64(-1), time.Now()
+		for {
+			select {
+			case <-stopDog:
+				return
+			case <-time.After(time.Second):
+			}
+			var msst runtime.MemStats
+			runtime.ReadMemStats(&msst)
+			if msst.HeapAlloc > 6<<30 {
+				fmt.Fprintf(os.Stderr, "c12-hist: a call allocates without bound (history-dependent loop?): %v\n", current.Load())
+				os.Exit(3)
+			}
+			if b := beat.Load(); b != last {
+				last, since = b, time.Now()
+			} else if time.Since(since) > 90*time.Second {
+				fmt.Fprintf(os.Stderr, "c12-hist: a call did not return within 90s (history-dependent hang?): %v\n", current.Load())
+				os.Exit(3)
+			}
+		}
+	}()
 
 	// the fixed regression witness of the repaired ensureStorage defect (/repo 0ad14dc)
 	{
@@ -347,7 +379,11 @@ func legC12Hist(c *Ctx) {
 			s.re.VerifOnScan(func(e regexp2.VerifScanStart) { ss.events = append(ss.events, e) })
 			sh[i] = s
 		}
+		replaceHeavy := h%4 == 1 // many distinct replacements on two Regexps: the 4- and 16-entry caches overflow
 		hlen := 8 + rng.Intn(maxLen-7)
+		if replaceHeavy && hlen < 36 {
+			hlen = 36
+		}
 		if h%10 == 0 {
 			hlen = maxLen
 		}
@@ -391,6 +427,10 @@ func legC12Hist(c *Ctx) {
 				texts[rng.Intn(len(texts))] = st.text
 			}
 			st.op = 1 + rng.Intn(11)
+			if replaceHeavy && rng.Chance(75) {
+				st.op = 8
+				st.re = Pick(rng, []int{5, 5, 1})
+			}
 			if specs[st.re].timeout != 0 && st.text == c12Catastrophic && st.op >= 8 {
 				st.op = 1 + rng.Intn(7) // keep the timed-out calls single-scan (cost)
 			}
@@ -422,6 +462,8 @@ func legC12Hist(c *Ctx) {
 			s := sh[st.re]
 			s.events = s.events[:0]
 			before := s.re.VerifPoolPeek()
+			current.Store(fmt.Sprintf("history #%d step %d %s", h, i, c12StepDesc(st, specs, repls)))
+			beat.Add(1)
 			out := c12Exec(s.re, st, repls, s.ngroups)
 			if st.op == 8 {
 				if bi := regexp2.VerifBytePoolIndex(len(st.text), s.re.VerifPoolConfig().MaxCachedReplaceBufferLength); bi >= 0 {
@@ -484,6 +526,9 @@ func legC12Hist(c *Ctx) {
 			if len(keys) > 0 {
 				gates["cache-nonempty"]++
 			}
+			if st.op == 8 && len(keys) > 0 && len(keys) == s.re.VerifPoolConfig().MaxCachedReplacerDataEntries {
+				gates["cache-full"]++
+			}
 			if len(s.events) > 0 && after.ID == runnerID {
 				mask |= 1
 				book = append(book, b2i(!after.MatchNil), b2i(after.CodeIsFull), b2i(after.TextNil))
@@ -534,6 +579,8 @@ func legC12Hist(c *Ctx) {
 		for i, st := range steps {
 			s := sh[st.re]
 			fresh := s.spec.compile()
+			current.Store(fmt.Sprintf("history #%d step %d (fresh Regexp) %s", h, i, c12StepDesc(st, specs, repls)))
+			beat.Add(1)
 			fo := c12Exec(fresh, st, repls, s.ngroups)
 			if fo.canon != outs[i].canon {
 				fail(i, st, "in the history the call returned %.300s; on a freshly compiled Regexp it returns %.300s", outs[i].canon, fo.canon)
@@ -588,7 +635,7 @@ func legC12Hist(c *Ctx) {
 		}
 	}
 	for _, g := range []string{"op1", "op2", "op3", "op4", "op5", "op6", "op7", "op8", "op9", "op10", "op11", "err1", "err2", "err3", "err4", "err5",
-		"recycled-runner", "cache-nonempty", "rune-class0", "rune-class1", "rune-class2", "rune-class3", "byte-class0", "byte-class1"} {
+		"recycled-runner", "cache-nonempty", "cache-full", "rune-class0", "rune-class1", "rune-class2", "rune-class3", "byte-class0", "byte-class1"} {
 		c.Gate("c12-hist generator never produced: "+g, gates[g] > 0)
 	}
 	ks := make([]string, 0, len(gates))
